@@ -141,3 +141,18 @@ pub use crate::server::verif_hook as server_hook;
 // --- BEGIN C28/C29/C30
 pub use crate::nts::verif_hook as nts;
 // --- END C28/C29/C30
+
+// --- BEGIN wsB C38 (raw access to id newtypes)
+pub fn clock_id_from_raw(v: u64) -> crate::ClockId {
+    crate::ClockId(v)
+}
+pub fn clock_id_raw(id: crate::ClockId) -> u64 {
+    id.0
+}
+pub fn reference_id_from_raw(v: u32) -> crate::ReferenceId {
+    crate::ReferenceId::from_int(v)
+}
+pub fn reference_id_raw(id: crate::ReferenceId) -> u32 {
+    u32::from_be_bytes(id.to_bytes())
+}
+// --- END wsB C38
